@@ -239,14 +239,10 @@ def battery(r, res, o, water, salt):
     import numpy
     out = [tuple(sorted(res.keys())), tuple(F.fingerprint(res[k]) for k in sorted(res.keys())), len(r.steps),
            tuple(sorted(r.stages.keys()))]
+    # flows and amounts first, usage afterwards: when the battery is asked a second time, every kind of question comes
+    # after every other kind has been asked once
     for name in sorted(res.keys()):
         obj = res[name]
-        for sub in (water, salt):
-            for tf in sorted(r.stages.keys()):
-                try:
-                    out.append(r.get_substance_used(sub, tf, 'umol', [obj]))
-                except Exception as e:   # noqa
-                    out.append(type(e).__name__)
         for tf in sorted(r.stages.keys()):
             try:
                 fl = r.get_container_flows(obj, tf, 'uL')
@@ -258,6 +254,14 @@ def battery(r, res, o, water, salt):
                 out.append(numpy.asarray(rem).tolist() if rem is not None else None)
             except Exception as e:   # noqa
                 out.append(type(e).__name__)
+    for name in sorted(res.keys()):
+        obj = res[name]
+        for sub in (water, salt):
+            for tf in sorted(r.stages.keys()):
+                try:
+                    out.append(r.get_substance_used(sub, tf, 'umol', [obj]))
+                except Exception as e:   # noqa
+                    out.append(type(e).__name__)
     return repr(out)
 
 
@@ -324,6 +328,12 @@ def run_sequence(pp, water, salt, seq, M, stats, states, transitions, check_batt
                 return
             if check_battery:
                 bat = battery(r, res, o, water, salt)
+                # asking is not a recipe call either: the same questions asked again, now after every other question
+                # has been asked once, get the same answers
+                stats['LIFE.battery'] += 1
+                if battery(r, res, o, water, salt) != bat:
+                    M.violate(['C16'], 'LIFE', 'C16:tracking_answers_changed_by_asking_them', {'sequence': list(seq[:i + 1])})
+                    return
         if len(r.steps) != m.n:
             M.violate(['C16'], 'LIFE', f'C16:number_of_steps_ne_model:{sym}', {'sequence': list(seq[:i + 1]), 'steps': len(r.steps), 'model': m.n})
             return
